@@ -21,7 +21,7 @@ waves (by induction over the list), each region being given by a `Piece` (U, G).
                     region and `G` continuous on the closed region, `G` matches at every wave;
 * `integral_pw`     ∫_a^b pw = G_last(b) - G_first(a);
 * `overwrite`       the way the code builds the profile (successive `where(V ≤ ξ, new, old)`),
-                    equal to `pw` when the speeds are ordered (`overwrite_eq_pw`);
+                    equal to the piecewise form when the speeds are ordered (`overwrite_eq_pwFun`);
 * `integral_comp_selfsimilar`   the change of variable x = x_d0 + t ξ;
 * `conservation_of_valid`       the formula above.
 -/
@@ -191,6 +191,13 @@ theorem conservation_of_valid {P₀ : Piece} {ws : List Wave} {xd0 a b t UL FL U
   rw [integral_comp_selfsimilar _ _ _ _ _ ht.ne', he, hL, hR]
   field_simp
   ring
+
+/-- `a` left of the wave position `xd0 + t V` means `ξ_a ≤ V` -/
+theorem xi_le_of_lt {xd0 t V a : ℝ} (ht : 0 < t) (h : a < xd0 + t * V) : (a - xd0) / t ≤ V := by
+  rw [div_le_iff₀ ht]; linarith
+/-- `b` right of the wave position `xd0 + t V` means `V ≤ ξ_b` -/
+theorem le_xi_of_lt {xd0 t V b : ℝ} (ht : 0 < t) (h : xd0 + t * V < b) : V ≤ (b - xd0) / t := by
+  rw [le_div_iff₀ ht]; linarith
 
 /-- a constant state: `G ξ = ξ U - F` -/
 def constPiece (U F : ℝ) : Piece := ⟨fun _ => U, fun ξ => ξ * U - F⟩
